@@ -66,7 +66,7 @@ func valSimplifier(fi *finfo, rv reflect.Value, addr uintptr) (any, reflect.Valu
 }
 
 func valSimplifierAddr(fi *finfo, rv reflect.Value, addr uintptr) (any, reflect.Value, bool) {
-	v := rv.FieldByIndex(fi.index).Addr().Interface()
+	v := addrOf(rv.FieldByIndex(fi.index)).Interface()
 	return v.(Simplifier).Simplify(), nilValue, false
 }
 
@@ -84,7 +84,7 @@ func valGenericer(fi *finfo, rv reflect.Value, addr uintptr) (any, reflect.Value
 }
 
 func valGenericerAddr(fi *finfo, rv reflect.Value, addr uintptr) (any, reflect.Value, bool) {
-	v := rv.FieldByIndex(fi.index).Addr().Interface()
+	v := addrOf(rv.FieldByIndex(fi.index)).Interface()
 	if g, _ := v.(Genericer); g != nil {
 		if n := g.Generic(); n != nil {
 			return n.Simplify(), nilValue, false
@@ -207,4 +207,15 @@ func newFinfo(f *reflect.StructField, key string, fx byte) *finfo {
 		}
 	}
 	return &fi
+}
+
+// addrOf returns a pointer to the field: its address when the struct is addressable, otherwise the address of a copy
+// (a struct passed by value is not addressable but its pointer-receiver methods still apply to the field value).
+func addrOf(fv reflect.Value) reflect.Value {
+	if fv.CanAddr() {
+		return fv.Addr()
+	}
+	p := reflect.New(fv.Type())
+	p.Elem().Set(fv)
+	return p
 }
